@@ -409,6 +409,36 @@ pub fn directed(all: bool) -> Vec<Trace> {
         t.sessions = vec![s];
         v.push(t);
     }
+    // ... and under the non-default values of each braille code's own preferences; between two identical position queries one
+    // of those preferences changes (an answer remembered under too coarse a key shows as a position outside the new braille)
+    for (vi, (code, prefs)) in pools::BRAILLE_VARIANTS.iter().enumerate() {
+        let mut t = Trace::new("C20", "C20");
+        t.origin = format!("directed braille-variants {} {}", vi, code);
+        let hl = pools::HIGHLIGHT[(vi + 2) % pools::HIGHLIGHT.len()];
+        let mut s = vec![Step::Call(Op::SetRulesDir(MOUNT_A.into())), Step::Call(Op::SetPref("BrailleCode".into(), code.to_string())), Step::Call(Op::SetPref("BrailleNavHighlight".into(), hl.to_string()))];
+        for e in [3usize, 8, 10, 12, 50, 54, 55, 61, 63, pools::VALID_EXPRS.len() - 1] {
+            s.push(Step::Call(Op::SetMathml(ExprRef::Pool(e))));
+            for c in ["ZoomIn", "MoveEnd"] {
+                s.push(Step::Call(Op::Cmd(c.into())));
+                s.push(Step::Call(Op::BraillePos));
+                for (n, val) in prefs.iter() {
+                    s.push(Step::Call(Op::SetPref(n.to_string(), val.to_string())));
+                    s.push(Step::Call(Op::BraillePos));
+                    s.push(Step::Call(Op::Braille(IdRef::Nav)));
+                    s.push(Step::Call(Op::NodeFromPos(PosRef::LenPlus(0))));
+                    s.push(Step::Call(Op::NodeFromPos(PosRef::Permille(990))));
+                }
+                // back to the defaults (the next expression starts from them again)
+                for (n, _) in prefs.iter() {
+                    let default = if n.ends_with("START_MODE") { "Grade2" } else if n.contains("UseSpaces") || n.contains("UseDrop") || n.contains("UseShort") { "false" } else { "\u{2808}" };
+                    s.push(Step::Call(Op::SetPref(n.to_string(), default.to_string())));
+                    s.push(Step::Call(Op::BraillePos));
+                }
+            }
+        }
+        t.sessions = vec![s];
+        v.push(t);
+    }
     // restoration on the error path: a read error inside routing with the user's highlight style Off
     for code in ["Nemeth", "UEB"] {
         for nth in 1..=3 {
